@@ -464,7 +464,9 @@ class VLE(Equilibrium, phases='lg'):
     
     def _set_TV_chemical(self, T, V):
         # Set vapor fraction
-        self._T = self._thermal_condition.T = self._chemical.Psat(T)
+        thermal_condition = self._thermal_condition
+        self._T = thermal_condition.T = T
+        self._P = thermal_condition.P = self._chemical.Psat(T)
         self._vapor_mol[self._index] = V * self._mol_vle
         self._liquid_mol[self._index] = self._mol_vle - self._vapor_mol[self._index]
         
